@@ -8,6 +8,7 @@ lean/Afkak/ClientNet.lean (see Driver/Client.lean for the line formats).  Nothin
 methods), `afkak.client.random` by a seeded recorder; both are restored by `Sim.dispose()`.
 """
 import random as _random
+import sys
 from fractions import Fraction
 
 from twisted.internet import defer
@@ -52,6 +53,18 @@ def kind_of(f):
     if isinstance(v, (E.ConnectionDone, E.ConnectionLost)):
         return "connLost"
     return "other:" + type(v).__name__
+
+
+def find_frame(name, depth=40):
+    """innermost frame of the function `name` on the current stack (observation only)"""
+    f = sys._getframe(1)
+    for _ in range(depth):
+        if f is None:
+            return None
+        if f.f_code.co_name == name:
+            return f
+        f = f.f_back
+    return None
 
 
 def commit_tag(topic, partition, error):
@@ -99,6 +112,10 @@ class SpyNet(Net):
             if p is not None:
                 p.boot = j
             self.sim.obs("bootConnect %d %s %d" % (j, host, port))
+            fr = find_frame("_bootstrap_request")
+            if fr is not None and isinstance(fr.f_locals.get("request"), bytes):
+                self.sim.obs("t-battr %d %d" % (j, self.sim.unaware_id(int.from_bytes(fr.f_locals["request"][4:8], "big", signed=True))))
+            del fr
             orig = d._canceller
 
             def canceller(dd):
@@ -135,6 +152,15 @@ def make_spy(sim):
             sim.reqs[k] = {"k": k, "b": self.b, "corr": correlationId, "rq": rq, "expect": expectResponse, "fired": False}
             self.k_by_corr[correlationId] = k
             sim.obs("mk %d %d %d %s" % (k, self.b, 1 if expectResponse else 0, sim.what_of(rq)))
+            fr = find_frame("_send_broker_aware_request") if rq["name"] in ("produce", "fetch", "offset", "commit", "ofetch") else None
+            if fr is not None and isinstance(fr.f_locals.get("payloads"), list):
+                hits = [sim.payload_ids.get(id(p)) for p in fr.f_locals["payloads"]]
+                if hits and all(h is not None for h in hits) and len(set(h[0] for h in hits)) == 1:
+                    sim.obs("t-attr %d %d %s" % (k, hits[0][0], CC.ints(h[1] for h in hits)))
+            fr = find_frame("_send_broker_unaware_request") if rq["name"] in ("metadata", "coord") else None
+            if fr is not None and "requestId" in fr.f_locals:
+                sim.obs("t-uattr %d %d" % (k, sim.unaware_id(fr.f_locals["requestId"])))
+            del fr
             d = _KafkaBrokerClient.makeRequest(self, correlationId, request, expectResponse)
             d.addBoth(self._spy_fired, k)
             return d
@@ -271,6 +297,10 @@ class Sim(object):
         self.nops = 0
         self.boot_conns = {}  # j -> Conn
         self.stray = []  # observations outside any step (must stay empty)
+        self.payload_ids = {}  # id(payload object) -> (op, index); the objects are kept alive in self.ops
+        self.unaware_ids = {}
+        self.close_log_idx = None
+        self.boot_meta_all = {}  # bootstrap attempt j -> its metadata request asked for all topics
         self.shuffle_rng = _random.Random(shuffle_seed)
         self._orig_bc = C._KafkaBrokerClient
         self._orig_random = C.random
@@ -307,6 +337,9 @@ class Sim(object):
 
     def step(self, line):
         return _Step(self, line)
+
+    def unaware_id(self, request_id):
+        return self.unaware_ids.setdefault(request_id, len(self.unaware_ids))
 
     def note_conn(self, bc, v):
         if bc.reported_conn != v and bc._dDown is None:
@@ -422,6 +455,8 @@ class Sim(object):
             raise ValueError(api)
         with self.step("send %d %s %d %d %s" % (o, group or "-", 1 if foe else 0, 1 if expect else 0, CC.fmt_keys(keys))):
             self.ops[o] = {"d": None, "result": None, "keys": [tuple(k) for k in keys], "payload_objs": payloads, "api": api, "group": group, "foe": foe, "expect": expect}
+            for i, pl in enumerate(payloads):
+                self.payload_ids[id(pl)] = (o, i)
             try:
                 d = call()
             except Exception as e:
@@ -458,6 +493,8 @@ class Sim(object):
 
     def api_close(self):
         o = self.new_op()
+        if self.close_log_idx is None:
+            self.close_log_idx = len(self.net.log)
         with self.step("close %d" % o):
             try:
                 d = self.client.close()
@@ -567,6 +604,9 @@ class Sim(object):
             live = self.boot_live(j)
             if not live:
                 return False
+            rq = W.parse_request(frame)
+            if rq["name"] == "metadata":
+                self.boot_meta_all[j] = not rq["extra"]["topics"]
             with self.step("bootreply %d %s" % (j, desc)):
                 conn.respond(frame, body)
                 conn.flush()
@@ -608,3 +648,31 @@ class Sim(object):
             lines.append(st["line"])
             lines.append("ndump")
         return lines
+
+    def trace_lines(self):
+        """the observed trace for the Lean monitors (t-* lines), followed by nothing"""
+        lines = [self.cfg_line]
+        for st in self.steps:
+            lines.append("t-ev " + st["line"])
+            for o in st["obs"]:
+                lines.append(o if o.startswith("t-") else "t-ob " + o)
+            if st["dump"] is not None:
+                lines.append("t-dump " + six(st["dump"]))
+                lines.append("t-timers " + CC.lst("%s@%s" % (nm, rat(Fraction(t).limit_denominator(10**9))) for t, nm in st["timers"]))
+        if self.close_log_idx is not None:
+            for e in self.net.log[self.close_log_idx:]:
+                if e[0] == "connect":
+                    lines.append("t-net connect %s %s" % (e[1], e[2]))
+                elif e[0] == "frame":
+                    lines.append("t-net frame conn=%d bytes=%d" % (e[1], len(e[2])))
+        return lines
+
+
+def six(dump):
+    d = {l.split(" ", 1)[0]: l.split(" ", 1)[1] for l in dump}
+    return " ".join(d[k] for k in ("brokers", "clients", "t2b", "parts", "errs", "groups"))
+
+
+def model_obs(st):
+    """the observations of a step that the model must reproduce (annotations removed)"""
+    return [o for o in st["obs"] if not o.startswith("t-")]
